@@ -185,10 +185,10 @@ def dict_canon(data, name, sc):
     return (name, sorted(kids))
 
 
-def has_undeclared_default(xml):
-    """input-only predicate: an element in no namespace (v) and a default-namespace declaration (set or unset)
-    occur in the same document."""
-    return '<v' in xml and 'xmlns="' in xml
+def has_undeclared_default(xml, user_ns=None):
+    """input-only predicate: an element in no namespace (v) and a default-namespace declaration (set or unset, in the
+    document or in the namespaces argument) occur together."""
+    return '<v' in xml and ('xmlns="' in xml or bool(user_ns and user_ns.get('')))
 
 
 def has_siblings(t):
@@ -205,7 +205,7 @@ def classes_of(outs):
     return cl
 
 
-def judge_doc(s, xml, tree, st):
+def judge_doc(s, xml, tree, st, user_ns=None):
     out = []
     base_valid = s.is_valid(xml)
     if not base_valid:
@@ -213,25 +213,31 @@ def judge_doc(s, xml, tree, st):
         return out
 
     def rec(kind, mode, conv, expected, observed, cl):
-        return {'kind': kind, 'input': {'doc': xml, 'mode': mode, 'converter': conv}, 'expected': expected,
+        return {'kind': kind, 'input': {'doc': xml, 'mode': mode, 'converter': conv, 'user_ns': user_ns}, 'expected': expected,
                 'observed': observed, 'classes': cl, 'key': '%s|%s|%s|%016x' % (kind, mode, conv, core.h64(xml))}
-    for mode in ('stacked', 'collapsed', 'root-only'):
+    for mode in ('stacked', 'collapsed', 'root-only') + (('stacked+user',) if user_ns else ()):
         st.case()
         if tree[3]:
             st.nt((xml, mode, 'JsonML'))
+        kw = {}
+        if mode == 'stacked+user':
+            # a namespaces argument whose prefixes may collide with the document's: the data must stay self-consistent
+            kw, mode_ = {'namespaces': dict(user_ns)}, 'stacked'
+        else:
+            mode_ = mode
         try:
-            data = s.decode(xml, converter=xmlschema.JsonMLConverter, xmlns_processing=mode)
+            data = s.decode(xml, converter=xmlschema.JsonMLConverter, xmlns_processing=mode_, **kw)
         except xmlschema.XMLSchemaException as e:
             out.append(rec('decode_raises', mode, 'JsonML', 'data', type(e).__name__ + ': ' + str(e)[:100], []))
             continue
         bad = []
         check_jsonml(data, tree, {}, bad)
-        ucl = ['undeclared-default-namespace'] if has_undeclared_default(xml) else []
+        ucl = ['undeclared-default-namespace'] if has_undeclared_default(xml, user_ns if mode == 'stacked+user' else None) else []
         if bad:
             out.append(rec('decoded_key_resolves_wrongly', mode, 'JsonML', str(bad[0][4]), str(bad[0][:4]),
-                           classes_of(bad) + (ucl if mode != 'stacked' else [])))
+                           classes_of(bad) + (ucl if (mode != 'stacked' and not (mode == 'stacked+user' and 'xmlns="' in xml and not (user_ns or {}).get(''))) else [])))
         try:
-            el = s.encode(data, converter=xmlschema.JsonMLConverter, xmlns_processing=mode, path='{%s}n' % tree[0])
+            el = s.encode(data, converter=xmlschema.JsonMLConverter, xmlns_processing=mode_, path='{%s}n' % tree[0], **kw)
             if et_tags(el) != tree_tags(tree):
                 cl = (classes_of(bad) if bad else []) + ucl
                 out.append(rec('encode_changes_names', mode, 'JsonML', str(tree_tags(tree))[:200], str(et_tags(el))[:200], cl))
@@ -321,8 +327,11 @@ def run_shard(desc):
 
         def body(rnd, st_):
             xml, tree = gen(rnd, 3, {})
-            st_.sample({'doc': xml[:300]}, cap=3)
-            return judge_doc(s, xml, tree, st_)
+            user = None
+            if rnd.random() < .4:
+                user = {p: rnd.choice(list(NS.values())) for p in ('p', 'q', 'k', '') if rnd.random() < .4} or {'p': NS['u']}
+            st_.sample({'doc': xml[:300], 'namespaces argument': user}, cap=3)
+            return judge_doc(s, xml, tree, st_, user)
         core.hyp_drive(st, PROPERTY, hst.randoms(use_true_random=False), body, n, core.derive_seed(seed, 'C17', k))
     finally:
         shutil.rmtree(tmp, ignore_errors=True)
@@ -350,7 +359,7 @@ def replay(record):
     tmp = tempfile.mkdtemp(prefix='vf_c17_')
     try:
         s = make_schema(tmp)
-        recs = judge_doc(s, inp['doc'], parse_tree(inp['doc']), st)
+        recs = judge_doc(s, inp['doc'], parse_tree(inp['doc']), st, inp.get('user_ns'))
     finally:
         shutil.rmtree(tmp, ignore_errors=True)
     return [r for r in recs if r['kind'] == record['kind'] and r['input']['mode'] == inp['mode']
